@@ -41,6 +41,26 @@ CHECKS["C19"] = dict(
     note="plan.rs / meta.rs compiled in unchanged via #[path]; sortedness is PathBuf order (A11)",
     engine="E")
 
+_DELTA_TEXT = ("TLC checks the scan / patch / textbook-greedy machines on every (basis, source) symbol string up to length 3/4 over "
+               "symbol classes (random, high-sum, weak-colliding pair) x symbols-per-block; each case is expanded to real bytes for "
+               "real block sizes and executed on CopiaSync, AsyncCopiaSync, the CLI file chain and `copia sync` (Conform: real ops = "
+               "spec ops scaled; Monitor: the property's clauses); large seeded cases with an independent match map are decided by "
+               "DeltaTrace.tla. Exhaustive on the symbol scope, sampled at real sizes.")
+CHECKS["C01"] = dict(category="model_checking", text=_DELTA_TEXT, design_ref="5 (C01), 4.2",
+    technique="TLA+ scan/patch machines (TLC exhaustive on symbol strings) + symbol-expansion replay into both engines and the CLI + trace validation over an independent match map",
+    note="BLAKE3 treated as injective; byte equality observed by the harness; symbol expansion assumes random chunks do not align by chance",
+    engine="E")
+CHECKS["C16"] = dict(category="model_checking", text=_DELTA_TEXT + " C16 clause: literal bytes <= textbook greedy (exactly equal in the model), identical => < 1 block, k-byte edit => <= k + 2 blocks.",
+    design_ref="5 (C16), 4.2",
+    technique="TLA+ greedy definition vs scan machine (TLC) + replay at all block sizes incl. high-sum blocks + trace validation of real deltas against greedy over an independent match map",
+    note="the independent match map is computed by the harness with its own rolling hash + byte comparison", engine="E")
+CHECKS["C05"] = dict(category="model_checking",
+    text="TLC enumerates every single corruption of every valid (basis, delta) of a small scope through the patch machine; each case is "
+         "executed on both engines and `copia patch` (Conform: outcome class; Monitor: success only if BLAKE3(written bytes) = "
+         "delta.checksum, no panic/signal, CLI exit in {0,1}); seeded multi-corruptions at byte level are decided by PatchTrace.tla.",
+    design_ref="5 (C05)", technique="TLA+ patch machine with corruption actions (TLC) + replay into both engines and the CLI + trace validation of random corruptions",
+    note="debug assertions and overflow checks on in the harness; BLAKE3 recomputed with the blake3 crate", engine="E")
+
 NOT_BUILT = "check not built yet in this round (planned in DESIGN.md section 5)"
 
 
